@@ -19,6 +19,25 @@ type Stamp struct {
 	Date   *DateTime `json:"date,omitempty"`
 	SubSec *string   `json:"subsec,omitempty"` // ASCII digits
 	Offset *string   `json:"offset,omitempty"` // "+HH:MM"
+	// Unknown (only with Date == nil): the date tag is present and says "unknown" the way Exif 2.3 section 4.6.4 spells it
+	// ("blank": digits replaced by spaces, colons kept) or the way many writers do ("zeros": 0000:00:00 00:00:00)
+	Unknown string `json:"unknown,omitempty"`
+}
+
+// dateText returns the text of the date tag, nil if the tag is absent.
+func (s Stamp) dateText() *string {
+	var t string
+	switch {
+	case s.Date != nil:
+		t = s.Date.String()
+	case s.Unknown == "blank":
+		t = "    :  :     :  :  "
+	case s.Unknown == "zeros":
+		t = "0000:00:00 00:00:00"
+	default:
+		return nil
+	}
+	return &t
 }
 
 // Record is the logical metadata (what the file says, independent of layout).
@@ -191,6 +210,9 @@ func genStamp(rt *rapid.T, label string, o Options) Stamp {
 	if Chance(rt, label+"?", 0.7) {
 		d := genDate(rt, label)
 		s.Date = &d
+	}
+	if s.Date == nil && Chance(rt, label+".unknown", 0.2) {
+		s.Unknown = rapid.SampledFrom([]string{"blank", "zeros"}).Draw(rt, label+".unknownform")
 	}
 	if s.Date == nil && !Chance(rt, label+".qualifiers-alone", 0.15) {
 		return s // (mostly) sub-seconds and offsets come with their date; alone they define no timestamp, which must then be reported as absent
@@ -600,10 +622,7 @@ func BuildDirs(r *Record) (ifd0, exif, gps *Dir) {
 	addS(ifd0, 0x0131, r.Software)
 	addS(ifd0, 0x013b, r.Artist)
 	addS(ifd0, 0x8298, r.Copyright)
-	if r.Modify.Date != nil {
-		s := r.Modify.Date.String()
-		addS(ifd0, 0x0132, &s)
-	}
+	addS(ifd0, 0x0132, r.Modify.dateText())
 	if r.DNGVersion {
 		ifd0.Entries = append(ifd0.Entries, Entry{Tag: 0xc612, V: Bytes(TByte, []byte{1, 4, 0, 0})})
 	}
@@ -623,14 +642,8 @@ func BuildDirs(r *Record) (ifd0, exif, gps *Dir) {
 	} else {
 		addU(exif, 0x8827, r.ISO, r.ISOLong)
 	}
-	if r.Original.Date != nil {
-		s := r.Original.Date.String()
-		addS(exif, 0x9003, &s)
-	}
-	if r.Create.Date != nil {
-		s := r.Create.Date.String()
-		addS(exif, 0x9004, &s)
-	}
+	addS(exif, 0x9003, r.Original.dateText())
+	addS(exif, 0x9004, r.Create.dateText())
 	addS(exif, 0x9010, r.Modify.Offset)
 	addS(exif, 0x9011, r.Original.Offset)
 	addS(exif, 0x9012, r.Create.Offset)
